@@ -30,7 +30,7 @@ pub fn foreign(u: &Arc<WindowUDF>) -> Result<WindowUDF, String> {
 }
 
 pub fn registry() -> Vec<Arc<WindowUDF>> {
-    let mut v = datafusion::execution::session_state::SessionStateDefaults::default_window_functions();
+    let mut v = datafusion::execution::SessionStateDefaults::default_window_functions();
     v.sort_by(|a, b| a.name().cmp(b.name()));
     v.dedup_by(|a, b| a.name() == b.name());
     v
